@@ -87,8 +87,8 @@ def register(reg):
     )
 
     reg.contract(
-        "werkzeug/datastructures/range.py:Range.range_for_length", prop=P, replay="method",
-        self_model=RangeM, params={"length": "Optional[int]"},
+        "werkzeug/datastructures/range.py:Range.range_for_length", prop=P, replay="method", modifies=[],
+        self_model=RangeM, params={"length": "Optional[int]"}, returns="Optional[Tuple[int, int]]",
         requires=["I_range(self)", "length is None or length >= 0"],
         ensures=[
             # soundness: inside the resource, non-empty
@@ -101,6 +101,20 @@ def register(reg):
             "(result is None) == (self.units != 'bytes' or length is None or len(self.ranges) != 1 or "
             " not satisfiable(self.ranges[0][0], self.ranges[0][1], length))",
         ],
+    )
+
+    # the Content-Range that is announced names exactly the slice range_for_length selects (first-last/length, inclusive)
+    reg.contract(
+        "werkzeug/datastructures/range.py:Range.to_content_range_header", prop=P, replay="method", modifies=[],
+        self_model=RangeM, params={"length": "Optional[int]"}, returns="Optional[str]",
+        requires=["I_range(self)", "length is None or length >= 0"],
+        ensures=[
+            "(result is None) == (self.units != 'bytes' or length is None or len(self.ranges) != 1 or "
+            " not satisfiable(self.ranges[0][0], self.ranges[0][1], length))",
+            "implies(result is not None, result == self.units + ' ' + str(want_lo(self.ranges[0][0], self.ranges[0][1], length)) + '-' + "
+            "        str(want_hi(self.ranges[0][0], self.ranges[0][1], length) - 1) + '/' + str(length))",
+        ],
+        raises={},
     )
 
     # ---- _RangeWrapper: the body of a 206 is exactly whole[start : start + byte_range] ----------
